@@ -1,6 +1,7 @@
 //! Registry of property checks.
 use crate::engine::PropertyDef;
 
+pub mod c02;
 pub mod c03;
 pub mod c04;
 pub mod c05;
@@ -32,6 +33,7 @@ pub mod util;
 
 pub fn all() -> Vec<PropertyDef> {
     vec![
+        c02::def(),
         c03::def(),
         c04::def(),
         c05::def(),
